@@ -1,5 +1,7 @@
 //! C18: one loaded dictionary shared by concurrent tokenizers.  Every session runs in a fresh child
-//! process so that the first use of every lazily initialised static races between the threads.
+//! process so that the first use of every lazily initialised static races between the threads; the
+//! lazily initialised statics are the once-cells of the model (`CELL_NAMES` = `Sched.cellNames`), and the
+//! shared-state sites of the source are compared with the allow-list `c18_shared_state.txt` on every run.
 use crate::c01::world_for;
 use crate::common::*;
 use crate::dict::*;
@@ -23,6 +25,50 @@ const ROUNDS: usize = 40;
 enum Op {
     Tok(String, Mode),
     Sent(String),
+    /// compile a user dictionary against the shared dictionary (reads its grammar and lexicon)
+    Build(String, bool),
+}
+
+/// The initialise-once cells of the model (`Sched.cellNames`, same order): every `static ref` of a `lazy_static!`
+/// block in non-test code under sudachi/src.  The inventory case compares this list with the source.
+pub const CELL_NAMES: [&str; 13] = ["SENTENCE_BREAKER", "ITEMIZE_HEADER", "SPACES", "PARENTHESIS", "PROHIBITED_BOS", "QUOTE_MARKER",
+    "EOS_ITEMIZE_HEADER", "CHAR_TO_NUM", "UNICODE_LITERAL", "WORD_ID_LITERAL", "SPLIT_REGEX", "EMPTY_LINE", "CURRENT_EXE_DIR"];
+
+/// Which once-cells an operation asks for.  NOT observed in the binary (a `lazy_static!` cannot be asked whether it is
+/// initialised): derived from the operation kind, the configuration and the text by reading the guards in front of
+/// every static (sentence_detector.rs get_eos/parenthesis_level/prohibited_bos/is_continuous_phrase,
+/// numeric_parser::append, build/parse.rs unescape*, build/lexicon.rs parse_split); an upper bound where the guard
+/// is the result of a regex match.
+fn touch_of(dic: &JapaneseDictionary, has_join_numeric: bool, op: &Op, result: &str) -> Vec<usize> {
+    use sudachi::dic::category_type::CategoryType;
+    use unicode_normalization::UnicodeNormalization;
+    let mut t = vec![];
+    match op {
+        Op::Tok(text, _) => {
+            if has_join_numeric && !result.starts_with("err:") && !result.starts_with("PANIC") {
+                let cc = &dic.grammar().character_category;
+                let num = |c: char| c != '.' && c != ',' && cc.get_category_types(c).intersects(CategoryType::NUMERIC | CategoryType::KANJINUMERIC);
+                if text.chars().any(num) || text.nfkc().any(num) { t.push(7); }
+            }
+        }
+        Op::Sent(text) => {
+            if !text.is_empty() {
+                t.push(0);
+                let breaker = text.chars().any(|c| "。？！♪…?!.．・‥".contains(c)) || text.contains("<br") || text.contains("<BR");
+                if breaker {
+                    t.extend([1, 3, 4, 5]);
+                    if text.chars().any(|c| c == 'と' || c == 'や' || c == 'の') { t.push(6); }
+                }
+                if text.chars().count() > 4096 { t.push(2); }
+            }
+        }
+        Op::Build(_, has_split) => {
+            t.push(8);
+            if *has_split { t.push(9); }
+        }
+    }
+    t.sort();
+    t
 }
 
 fn perform<'a>(dic: &'a JapaneseDictionary, tok: &mut StatefulTokenizer<&'a JapaneseDictionary>, ml: &mut MorphemeList<&'a JapaneseDictionary>, op: &Op) -> String {
@@ -46,6 +92,10 @@ fn perform<'a>(dic: &'a JapaneseDictionary, tok: &mut StatefulTokenizer<&'a Japa
             let sp = SentenceSplitter::new().with_checker(dic.lexicon());
             sp.split(text).map(|(r, _)| format!("{}-{}", r.start, r.end)).collect::<Vec<_>>().join(",")
         }
+        Op::Build(csv, _) => match build_user(dic, csv.as_bytes()) {
+            Ok(bytes) => { let mut h: u64 = 0xcbf29ce484222325; for b in &bytes { h ^= *b as u64; h = h.wrapping_mul(0x100000001b3); } format!("built:{}:{:016x}", bytes.len(), h) }
+            Err(e) => format!("err:build:{}", e.chars().take(60).collect::<String>()),
+        },
     });
     r.unwrap_or_else(|p| format!("PANIC:{}", p.chars().take(60).collect::<String>()))
 }
@@ -73,6 +123,57 @@ fn fingerprint(w: &World) -> u64 {
     h
 }
 
+/// reload the world's dictionary with EVERY bundled plugin enabled: the three input-text plugins, the three OOV
+/// providers, both path-rewrite plugins and the connection-cost plugin (a race needs the racy code to run)
+fn enable_every_plugin(rng: &mut Rng, w: &mut World) -> Result<(), String> {
+    let n = w.matrix.nl.min(w.matrix.nr);
+    w.wd.write("unk_gen.def", &unk_def(rng, n));
+    let mut input = vec![
+        r#"{"class":"com.worksap.nlp.sudachi.DefaultInputTextPlugin","rewriteDef":"rewrite.def"}"#.to_string(),
+        r#"{"class":"com.worksap.nlp.sudachi.ProlongedSoundMarkPlugin","prolongedSoundMarks":["ー","〜","～"],"replacementSymbol":"ー"}"#.to_string(),
+        format!(r#"{{"class":"com.worksap.nlp.sudachi.IgnoreYomiganaPlugin","leftBrackets":["(","（","《"],"rightBrackets":[")","）","》"],"maxYomiganaLength":{}}}"#, rng.range(3, 5)),
+    ];
+    if rng.chance(1, 3) { let k = rng.below(3); let x = input.remove(k); input.push(x); }
+    let re = *rng.pick(&["[0-9a-z]+", "[ア-ン]+", "[a-z0-9]{2,}"]);
+    let oov = vec![
+        r#"{"class":"com.worksap.nlp.sudachi.MeCabOovPlugin","charDef":"char_full.def","unkDef":"unk_gen.def"}"#.to_string(),
+        format!(r#"{{"class":"com.worksap.nlp.sudachi.RegexOovProvider","regex":"{}","leftId":{},"rightId":{},"cost":{},"oovPOS":{},"maxLength":{},"boundaries":"{}"}}"#,
+            re, rng.below(n), rng.below(n), rng.below(5000), OOV_POS_JSON, rng.range(2, 8), if rng.chance(1, 2) { "strict" } else { "relaxed" }),
+        simple_oov_json(rng.below(n) as i64, rng.below(n) as i64, rng.below(12000) as i64),
+    ];
+    let mut pr = vec![
+        format!(r#"{{"class":"com.worksap.nlp.sudachi.JoinNumericPlugin","enableNormalize":{}}}"#, rng.chance(1, 2)),
+        format!(r#"{{"class":"com.worksap.nlp.sudachi.JoinKatakanaOovPlugin","oovPOS":{},"minLength":{}}}"#, OOV_POS_JSON, rng.below(4)),
+    ];
+    if rng.chance(1, 3) { pr.swap(0, 1); }
+    let pairs: Vec<String> = (0..rng.range(1, 3)).map(|_| format!("[{},{}]", rng.below(n), rng.below(n))).collect();
+    let conn = vec![format!(r#"{{"class":"com.worksap.nlp.sudachi.InhibitConnectionPlugin","inhibitPair":[{}]}}"#, pairs.join(","))];
+    let cfg = config_json_cd(&w.wd, "char_full.def", &input, &oov, &pr, &conn);
+    let dic = load(&cfg, w.system_bin.clone(), w.user_bins.clone())?;
+    w.dic = dic;
+    w.cfg = cfg;
+    w.has_fallback = true;
+    w.has_path_rewrite = true;
+    w.desc = vec!["EVERY-PLUGIN input:default+psm+yomigana oov:mecab+regex+simple rewrite:numeric+katakana conn:inhibit".to_string(), format!("users:{}", w.users.len())];
+    Ok(())
+}
+
+/// texts that make each bundled plugin do something: bracketed readings after kanji (IgnoreYomigana), runs of prolonged
+/// sound marks, numerals with separators and units (JoinNumeric + CHAR_TO_NUM), katakana runs (JoinKatakanaOov, MeCab),
+/// latin/digit runs (Regex provider), characters of rewrite.def (DefaultInputText)
+const EXERCISE: &[&str] = &["東京都に行(い)く", "京都(きょうと)", "山（やま）と川(かわ)", "漢《かん》字", "二千十円", "3万5千", "1,234.5円", "一億二千万",
+    "12,345", "〇.五", "1.千5", "アイウエオ", "コンピューター", "スーパーマーケット", "ｶﾞｷﾞｸﾞ", "すごーーーい", "えーーっ〜〜", "abc123", "x9", "ＡＢＣ１２３",
+    "特許庁長官殿御中", "ΑΒΓ", "абв", "㍿と①"];
+
+fn gen_exercise(rng: &mut Rng, w: &World) -> String {
+    let mut s = String::new();
+    for _ in 0..rng.range(1, 4) {
+        if rng.chance(1, 3) { s.push_str(&gen_text(rng, w, 5)); }
+        s.push_str(*rng.pick(EXERCISE));
+    }
+    s
+}
+
 /// one multi-threaded session (child process); prints one JSON line
 pub fn child(run: &mut Run) {
     assert_send_sync::<JapaneseDictionary>();
@@ -80,21 +181,45 @@ pub fn child(run: &mut Run) {
     let mut rng = Rng::for_case(run.opts.seed, idx);
     let mut o = WorldOpts::default();
     o.always_fallback = idx % 5 != 4;
-    let w = match world_for(run.opts.seed, "C18", idx, &o) {
+    let mut w = match world_for(run.opts.seed, "C18", idx, &o) {
         Ok(w) => w,
         Err(e) => { println!("{}", serde_json::json!({"world_error": e})); return; }
     };
+    // every second session: a dictionary with every bundled plugin and texts that exercise each of them
+    let full = idx % 2 == 0;
+    if full {
+        let mut r2 = Rng::for_case(run.opts.seed ^ 0xf011, idx);
+        if let Err(e) = enable_every_plugin(&mut r2, &mut w) { println!("{}", serde_json::json!({"world_error": e})); return; }
+    }
+    let has_join_numeric = w.cfg.contains("JoinNumericPlugin");
+    // cells the main thread initialised while it built the world (before any session thread exists)
+    let mut pre: Vec<usize> = vec![8, 10, 11];
+    let has_split = |r: &Row| r.split_a != "*" || r.split_b != "*" || r.wstruct != "*";
+    if w.lex.rows.iter().any(has_split) || w.users.iter().any(|u| u.iter().any(has_split)) { pre.push(9); }
+    pre.sort();
     let nthreads = *rng.pick(&[2usize, 4, 8, 16]);
     let mut all_ops: Vec<Vec<Op>> = vec![];
     for _ in 0..nthreads {
         let k = rng.range(4, 14);
         let mut ops = vec![];
         for _ in 0..k {
-            let t = if rng.chance(1, 10) { "あ".repeat(20000) } else { gen_text(&mut rng, &w, 16) };
-            ops.push(if rng.chance(1, 5) { Op::Sent(format!("{}。{}", t.chars().take(40).collect::<String>(), gen_text(&mut rng, &w, 6))) } else { Op::Tok(t, mode_of(rng.below(3))) });
+            if full && rng.chance(1, 10) {
+                // a user dictionary compiled against the shared dictionary while the others analyse
+                let mut rows = vec![Row::simple(&gen_exercise(&mut rng, &w).chars().take(6).collect::<String>(), 0, 0, 100, 0)];
+                let split = rng.chance(1, 2);
+                if split { let mut r = Row::simple("二千十", 0, 0, 200, 0); r.mode = 'C'; r.split_a = "0/1".into(); rows.push(r); }
+                ops.push(Op::Build(csv_of(&rows, &default_pos()), split));
+                continue;
+            }
+            let t = if rng.chance(1, 10) { "あ".repeat(20000) } else if full && rng.chance(2, 3) { gen_exercise(&mut rng, &w) } else { gen_text(&mut rng, &w, 16) };
+            ops.push(if rng.chance(1, 5) {
+                if rng.chance(1, 12) { Op::Sent(format!("{}{}", "あ ".repeat(2100), gen_text(&mut rng, &w, 6))) }
+                else { Op::Sent(format!("{}。{}", t.chars().take(40).collect::<String>(), gen_text(&mut rng, &w, 6))) }
+            } else { Op::Tok(t, mode_of(rng.below(3))) });
         }
         all_ops.push(ops);
     }
+    let alone_only = std::env::var("C18_ALONE").is_ok();
     let fp_before = fingerprint(&w);
     // threads share the world's dictionary by reference (scoped threads): the same object, not a clone
     let counter = AtomicUsize::new(0);
@@ -105,6 +230,7 @@ pub fn child(run: &mut Run) {
     let dref: &JapaneseDictionary = &w.dic;
     std::thread::scope(|sc| {
         for (t, ops) in all_ops.iter().enumerate() {
+            if alone_only { break; }
             let counter = &counter;
             let events = &events;
             let barrier = &barrier;
@@ -171,8 +297,38 @@ pub fn child(run: &mut Run) {
         }
     }
     let panics = ev.iter().filter(|e| e.3.starts_with("PANIC")).count();
+    // hash over the text of every single-threaded result, in operation order
+    let mut reshash: u64 = 0xcbf29ce484222325;
+    for r in base.iter().flatten() { for b in r.bytes() { reshash ^= b as u64; reshash = reshash.wrapping_mul(0x100000001b3); } reshash ^= 0xff; reshash = reshash.wrapping_mul(0x100000001b3); }
+    // once-cells: what every operation asks for, who came first in the observed order, what is initialised at the end
+    let mut touch: Vec<String> = vec![];
+    let mut touch_of_op: HashMap<(usize, usize), Vec<usize>> = HashMap::new();
+    for (t, ops) in all_ops.iter().enumerate() {
+        for (k, op) in ops.iter().enumerate() {
+            let tc = touch_of(dref, has_join_numeric, op, &base[t][k]);
+            if !tc.is_empty() { touch.push(format!("{}:{}", op_ids[t][k], join(tc.iter(), "."))); }
+            touch_of_op.insert((t, k), tc);
+        }
+    }
+    let mut owner: Vec<Option<usize>> = vec![None; CELL_NAMES.len()];
+    let mut inited: Vec<bool> = vec![false; CELL_NAMES.len()];
+    for c in &pre { inited[*c] = true; }
+    let mut init_log: Vec<String> = vec![];
+    for e in &ev {
+        for c in &touch_of_op[&(e.1, e.2)] {
+            if !inited[*c] { inited[*c] = true; owner[*c] = Some(e.1); init_log.push(format!("{}:{}", c, e.1)); }
+        }
+    }
+    let cells_final: Vec<usize> = (0..CELL_NAMES.len()).filter(|c| inited[*c]).collect();
+    let first_touch: Vec<String> = (0..CELL_NAMES.len()).filter_map(|c| owner[c].map(|t| format!("{}:thread{}", CELL_NAMES[c], t))).collect();
     println!("{}", serde_json::json!({
-        "threads": nthreads, "world": w.desc.join(" "),
+        "threads": nthreads, "world": w.desc.join(" "), "full": full, "reshash": reshash.to_string(),
+        "touch": if touch.is_empty() { "-".to_string() } else { touch.join(",") },
+        "pre": if pre.is_empty() { "-".to_string() } else { join(pre.iter(), ",") },
+        "fp": (fp_before % 1000003).to_string(),
+        "init": init_log.join(","), "cells": join(cells_final.iter(), ","), "first_touch": first_touch,
+        "kinds": { "tok": all_ops.iter().flatten().filter(|o| matches!(o, Op::Tok(..))).count(), "sent": all_ops.iter().flatten().filter(|o| matches!(o, Op::Sent(..))).count(), "build": all_ops.iter().flatten().filter(|o| matches!(o, Op::Build(..))).count(),
+            "build_ok": base.iter().flatten().filter(|r| r.starts_with("built:")).count(), "tok_err": base.iter().flatten().filter(|r| r.starts_with("err:") && !r.starts_with("err:build")).count() },
         "ops": op_ids.iter().map(|v| if v.is_empty() { "-".to_string() } else { join(v.iter(), ",") }).collect::<Vec<_>>().join(";"),
         "res": res.iter().map(|(a, b)| format!("{}:{}", a, b)).collect::<Vec<_>>().join(","),
         "sched": join(sched.iter(), ","), "trace": trace.join(","),
@@ -181,12 +337,182 @@ pub fn child(run: &mut Run) {
     }));
 }
 
+// ---------------------------------------------------------------------------------------------------------------
+// static inventory of shared-state sites (statics, once-cells, locks, atomics, interior mutability, thread locals,
+// Send/Sync assertions, GIL releases, lifetime-erasing transmutes, raw pointers) in the tree the harness is linked to
+
+/// root of the repository the harness is built against (parent of the `sudachi` path dependency in harness/Cargo.toml)
+pub fn repo_root() -> String {
+    let root = std::env::var("VERIF_ROOT").unwrap_or_else(|_| "/verif".into());
+    let toml = std::fs::read_to_string(format!("{}/harness/Cargo.toml", root)).unwrap_or_default();
+    let dir = toml.lines().find_map(|l| {
+        let l = l.trim();
+        if l.starts_with("sudachi") && l.contains("path") { l.split("path").nth(1).and_then(|r| r.split('"').nth(1)).map(|x| x.to_string()) } else { None }
+    }).unwrap_or_else(|| "/repo/sudachi".to_string());
+    dir.trim_end_matches('/').trim_end_matches("/sudachi").to_string()
+}
+
+pub struct Site { pub file: String, pub pattern: String, pub count: usize, pub lines: Vec<usize>, pub static_ref: bool }
+
+fn rs_files(dir: &std::path::Path, out: &mut Vec<std::path::PathBuf>) {
+    let Ok(rd) = std::fs::read_dir(dir) else { return };
+    let mut es: Vec<_> = rd.filter_map(|e| e.ok()).collect();
+    es.sort_by_key(|e| e.file_name());
+    for e in es {
+        let p = e.path();
+        let name = e.file_name().to_string_lossy().to_string();
+        if p.is_dir() {
+            if name == "tests" || name == "testing" || name == "test" { continue; }
+            rs_files(&p, out);
+        } else if name.ends_with(".rs") && name != "test.rs" && name != "tests.rs" && !name.ends_with("_test.rs") {
+            out.push(p);
+        }
+    }
+}
+
+/// non-test code of one file, comments removed, line structure kept
+fn code_lines(src: &str) -> Vec<String> {
+    let mut out = vec![];
+    let mut in_block = false;
+    let lines: Vec<&str> = src.lines().collect();
+    for (i, l) in lines.iter().enumerate() {
+        // an inline test module ends the production code of the file
+        if l.trim() == "#[cfg(test)]" {
+            if let Some(nx) = lines[i + 1..].iter().find(|x| !x.trim().is_empty()) {
+                let nx = nx.trim();
+                if nx.starts_with("mod ") && nx.ends_with('{') { break; }
+            }
+        }
+        let mut line = String::new();
+        let cs: Vec<char> = l.chars().collect();
+        let mut k = 0;
+        while k < cs.len() {
+            if in_block {
+                if cs[k] == '*' && k + 1 < cs.len() && cs[k + 1] == '/' { in_block = false; k += 2; } else { k += 1; }
+            } else if cs[k] == '/' && k + 1 < cs.len() && cs[k + 1] == '*' { in_block = true; k += 2; }
+            else if cs[k] == '/' && k + 1 < cs.len() && cs[k + 1] == '/' { break; }
+            else { line.push(cs[k]); k += 1; }
+        }
+        out.push(line);
+    }
+    out
+}
+
+pub fn scan_inventory(root: &str) -> Vec<Site> {
+    use regex::Regex;
+    let pats: Vec<(&str, Regex)> = vec![
+        ("lazy_static!", Regex::new(r"\blazy_static!").unwrap()),
+        ("once-type", Regex::new(r"\b(GILOnceCell|OnceCell|OnceLock|LazyLock|LazyCell|Lazy|Once)\b").unwrap()),
+        ("thread-local", Regex::new(r"\bthread_local!|\bThreadLocal\b|\bLocalKey\b").unwrap()),
+        ("lock", Regex::new(r"\b(Mutex|RwLock|Condvar|Barrier)\b").unwrap()),
+        ("cell", Regex::new(r"\b(RefCell|UnsafeCell|Cell|SyncUnsafeCell)\b").unwrap()),
+        ("atomic", Regex::new(r"\bAtomic[A-Z][A-Za-z0-9]*\b|\bsync::atomic\b").unwrap()),
+        ("unsafe-impl-send-sync", Regex::new(r"unsafe\s+impl(\s*<[^>]*>)?\s+(Send|Sync)\b").unwrap()),
+        ("allow_threads", Regex::new(r"\ballow_threads\b").unwrap()),
+        ("rc", Regex::new(r"\bRc\b").unwrap()),
+        ("transmute", Regex::new(r"\btransmute\b").unwrap()),
+        ("raw-mut-pointer", Regex::new(r"\*mut\b|\bas_mut_ptr\b|\bfrom_raw_parts_mut\b").unwrap()),
+        ("dso-library", Regex::new(r"\bLibrary\b").unwrap()),
+    ];
+    let stat = Regex::new(r"\bstatic\s+(ref\s+|mut\s+)?([A-Za-z_][A-Za-z0-9_]*)\s*:").unwrap();
+    let mut files = vec![];
+    for sub in ["sudachi/src", "python/src"] { rs_files(std::path::Path::new(&format!("{}/{}", root, sub)), &mut files); }
+    // modules declared `#[cfg(test)] mod x;` are test code wherever their file is
+    let mut test_mods: Vec<std::path::PathBuf> = vec![];
+    for f in &files {
+        let Ok(src) = std::fs::read_to_string(f) else { continue };
+        let ls: Vec<&str> = src.lines().collect();
+        for (i, l) in ls.iter().enumerate() {
+            if l.trim() != "#[cfg(test)]" { continue; }
+            let Some(nx) = ls[i + 1..].iter().find(|x| !x.trim().is_empty()) else { continue };
+            let nx = nx.trim().trim_start_matches("pub(crate) ").trim_start_matches("pub ");
+            if let Some(name) = nx.strip_prefix("mod ").and_then(|r| r.strip_suffix(';')) {
+                let stem = f.file_stem().unwrap().to_string_lossy().to_string();
+                let base = if stem == "mod" || stem == "lib" || stem == "main" { f.parent().unwrap().to_path_buf() } else { f.parent().unwrap().join(&stem) };
+                test_mods.push(base.join(format!("{}.rs", name.trim())));
+                test_mods.push(base.join(name.trim()));
+            }
+        }
+    }
+    files.retain(|f| !test_mods.iter().any(|t| f == t || f.starts_with(t)));
+    let mut sites: Vec<Site> = vec![];
+    for f in files {
+        let Ok(src) = std::fs::read_to_string(&f) else { continue };
+        let rel = f.to_string_lossy().trim_start_matches(root).trim_start_matches('/').to_string();
+        let lines = code_lines(&src);
+        let mut add = |pattern: String, line: usize, n: usize, sr: bool| {
+            if let Some(s) = sites.iter_mut().find(|s| s.file == rel && s.pattern == pattern) { s.count += n; s.lines.push(line); }
+            else { sites.push(Site { file: rel.clone(), pattern, count: n, lines: vec![line], static_ref: sr }); }
+        };
+        for (i, l) in lines.iter().enumerate() {
+            for (name, re) in &pats {
+                let n = re.find_iter(l).count();
+                if n > 0 { add(name.to_string(), i + 1, n, false); }
+            }
+            for c in stat.captures_iter(l) {
+                let kind = match c.get(1).map(|m| m.as_str().trim()) { Some("mut") => "static-mut", Some("ref") => "static-ref", _ => "static" };
+                add(format!("{}:{}", kind, &c[2]), i + 1, 1, kind == "static-ref");
+            }
+        }
+    }
+    sites.sort_by(|a, b| (a.file.as_str(), a.pattern.as_str()).cmp(&(b.file.as_str(), b.pattern.as_str())));
+    sites
+}
+
+/// `vharness C18INVENTORY`: the sites found now, in the format of c18_shared_state.txt (class `?` = to be classified)
+pub fn print_inventory() {
+    for s in scan_inventory(&repo_root()) {
+        println!("? {} {} {} # line{} {}", s.file, s.pattern, s.count, if s.lines.len() > 1 { "s" } else { "" }, join(s.lines.iter(), ","));
+    }
+}
+
+/// the committed allow-list: `class file pattern count # comment`
+fn read_allow_list() -> Vec<(String, String, String, usize)> {
+    let root = std::env::var("VERIF_ROOT").unwrap_or_else(|_| "/verif".into());
+    let txt = std::fs::read_to_string(format!("{}/c18_shared_state.txt", root)).unwrap_or_default();
+    let mut out = vec![];
+    for l in txt.lines() {
+        let l = l.split('#').next().unwrap_or("").trim();
+        let f: Vec<&str> = l.split_whitespace().collect();
+        if f.len() == 4 { if let Ok(n) = f[3].parse() { out.push((f[0].to_string(), f[1].to_string(), f[2].to_string(), n)); } }
+    }
+    out.sort_by(|a, b| (a.1.as_str(), a.2.as_str()).cmp(&(b.1.as_str(), b.2.as_str())));
+    out
+}
+
+/// the inventory case: sites in the source now (implementation side) vs the committed allow-list the model's cell
+/// list was written against (model side).  A NEW or changed site breaks the tie: the check then searches other seeds
+/// for a failing session and, finding none, reports `no-failing-input-found` - it never passes over a new site silently.
+fn inventory_case(run: &mut Run, idx: usize) {
+    let sites = scan_inventory(&repo_root());
+    let allow = read_allow_list();
+    let payload = format!("allow={}", allow.iter().map(|a| format!("{}|{}|{}|{}", a.0, a.1, a.2, a.3)).collect::<Vec<_>>().join(";"));
+    let mut found: Vec<String> = sites.iter().filter(|s| s.static_ref).map(|s| s.pattern.split(':').nth(1).unwrap_or("").to_string()).collect();
+    let mut cells: Vec<String> = CELL_NAMES.iter().filter(|n| found.iter().any(|f| f == *n)).map(|n| n.to_string()).collect();
+    found.retain(|f| !CELL_NAMES.contains(&f.as_str()));
+    found.sort();
+    cells.extend(found);
+    let ans = format!("ok sites={} cells={}", sites.iter().map(|s| format!("{}|{}|{}", s.file, s.pattern, s.count)).collect::<Vec<_>>().join(";"), cells.join(","));
+    run.case(idx, "inventory", &payload, &ans, true);
+    run.bump_by("inventory:sites-in-source", sites.len() as u64);
+    for a in &allow { run.bump(&format!("inventory:class:{}", a.0)); }
+    let newsites: Vec<String> = sites.iter().filter(|s| !allow.iter().any(|a| a.1 == s.file && a.2 == s.pattern && a.3 == s.count))
+        .map(|s| format!("{}:{} {} x{}", s.file, join(s.lines.iter(), ","), s.pattern, s.count)).collect();
+    let gone: Vec<String> = allow.iter().filter(|a| !sites.iter().any(|s| a.1 == s.file && a.2 == s.pattern && a.3 == s.count)).map(|a| format!("{} {} x{}", a.1, a.2, a.3)).collect();
+    run.bump_by("inventory:sites-not-in-allow-list", newsites.len() as u64);
+    run.bump_by("inventory:allow-list-entries-not-in-source", gone.len() as u64);
+    run.extra.insert("shared_state_inventory".into(), serde_json::json!({"repo": repo_root(), "sites": sites.len(), "not_in_allow_list": newsites, "no_longer_in_source": gone}));
+}
+
 pub fn run(run: &mut Run) {
-    run.rule = "each case = one child process: a random world (all plugin kinds, user dictionaries), N in {2,4,8,16} threads \
-started behind a barrier (first use of every lazy static races), each with its own StatefulTokenizer over the SAME dictionary \
-object and a random stream of analyses (modes A/B/C, 60 KB texts, sentence splitting); the observed global order of completions \
-is replayed by the scheduler model; non-trivial = at least two threads interleaved (schedule is not a concatenation of per-thread blocks); \
-plus Python threads over tokenizers of one Dictionary".into();
+    run.rule = "each session case = one child process: a random world (all plugin kinds, user dictionaries; every second session a \
+dictionary with EVERY bundled plugin - 3 input-text, 3 OOV, 2 path-rewrite, InhibitConnection - and texts that exercise each), N in {2,4,8,16} \
+threads started behind a barrier (first use of every lazy static races), each with its own StatefulTokenizer over the SAME dictionary object and a \
+random stream of analyses (modes A/B/C, 60 KB texts), sentence splittings and user-dictionary builds against the shared dictionary, then 40 \
+repetition rounds; every result must equal the single-threaded result in the same process and in a second, fresh, single-threaded process (no \
+static initialised); the observed global order of completions is replayed by the once-cell scheduler model (trace, who initialised which lazy \
+static, cells initialised at the end); non-trivial = at least two threads interleaved (schedule is not a concatenation of per-thread blocks); \
+plus one inventory case (shared-state sites in the source vs c18_shared_state.txt) and Python threads over tokenizers of one Dictionary".into();
     let exe = std::env::current_exe().unwrap();
     let n = run.opts.count;
     for idx in 0..n {
@@ -213,8 +539,18 @@ plus Python threads over tokenizers of one Dictionary".into();
         run.bump_by("events", sched.len() as u64);
         run.bump_by("repeated-analyses", v["repetitions"].as_u64().unwrap_or(0));
         run.bump_by("context-switches-observed", switches as u64);
-        let payload = format!("ops={} res={} sched={}", v["ops"].as_str().unwrap_or(""), v["res"].as_str().unwrap_or(""), v["sched"].as_str().unwrap_or(""));
-        let ans = format!("ok trace={}", v["trace"].as_str().unwrap_or(""));
+        if v["full"].as_bool().unwrap_or(false) { run.bump("sessions-with-every-bundled-plugin"); }
+        for k in ["tok", "sent", "build", "build_ok", "tok_err"] { run.bump_by(&format!("ops:{}", k), v["kinds"][k].as_u64().unwrap_or(0)); }
+        if let Some(ft) = v["first_touch"].as_array() {
+            for x in ft {
+                let x = x.as_str().unwrap_or("");
+                run.bump(&format!("first-touch:{}:by-a-session-thread", x.split(':').next().unwrap_or("")));
+                if !x.ends_with(":thread0") { run.bump("first-touch:not-by-thread-0"); }
+            }
+        }
+        let payload = format!("ops={} res={} sched={} fp={} ncells={} pre={} touch={}", v["ops"].as_str().unwrap_or(""), v["res"].as_str().unwrap_or(""), v["sched"].as_str().unwrap_or(""),
+            v["fp"].as_str().unwrap_or("0"), CELL_NAMES.len(), v["pre"].as_str().unwrap_or("-"), v["touch"].as_str().unwrap_or("-"));
+        let ans = format!("ok trace={} init={} cells={}", v["trace"].as_str().unwrap_or(""), v["init"].as_str().unwrap_or(""), v["cells"].as_str().unwrap_or(""));
         run.case(idx, "run", &payload, &ans, switches >= threads);
         if let Some(m) = v["mismatches"].as_array() {
             if !m.is_empty() {
@@ -222,12 +558,22 @@ plus Python threads over tokenizers of one Dictionary".into();
                 continue;
             }
         }
+        // the reference of the theorems is a thread alone FROM THE ALL-UNINITIALISED STATE: the same operations, single-threaded,
+        // in another fresh process (the in-process baseline above runs after the session, on initialised statics)
+        let alone = Command::new(&exe).env("C18_ALONE", "1").arg("C18CHILD").arg("--seed").arg(run.opts.seed.to_string()).arg("--only").arg(idx.to_string()).arg("--out").arg(&run.opts.out).output();
+        let va: Option<serde_json::Value> = alone.ok().and_then(|o| String::from_utf8_lossy(&o.stdout).lines().rev().find_map(|l| serde_json::from_str(l).ok()));
+        match va {
+            Some(va) if va["res"] == v["res"] && va["reshash"] == v["reshash"] && va["fp_before"] == v["fp_before"] => run.bump("alone-process-baselines-equal"),
+            Some(va) => { run.fail(idx, "c18:alone-process", &format!("single-threaded results in a fresh process (no static initialised) differ from the results after the session: reshash {} vs {}, fingerprint {} vs {} | world {}", va["reshash"], v["reshash"], va["fp_before"], v["fp_before"], v["world"])); continue; }
+            None => { run.fail(idx, "c18:alone-crash", "the single-threaded reference process died"); continue; }
+        }
         if v["fp_before"] != v["fp_after"] {
             run.fail(idx, "c18:dictionary-modified", &format!("dictionary fingerprint changed during the session: {} -> {}", v["fp_before"], v["fp_after"]));
             continue;
         }
         if v["panics"].as_u64().unwrap_or(0) > 0 { run.bump("sessions-with-panicking-analyses(same alone: C03)"); }
     }
+    if run.wants(n + 100) { inventory_case(run, n + 100); }
     // Python threads sharing one Dictionary
     let root = std::env::var("VERIF_ROOT").unwrap_or_else(|_| "/verif".to_string());
     let pkg = format!("{}/.build/py/pkg", root);
